@@ -137,10 +137,11 @@ FIXED = [
     {"threads": {"a1": [("send_err", 100)], "a2": [("shutdown_write",)]}},
     {"threads": {"a1": [("sendall", 100)], "b1": [("close",)]}},
     # a send that fails BEFORE the racing pair: non-blocking / timed at window 0 (socket.timeout), or on a closed channel
-    {"threads": {"a1": [("send", 32768), ("send", 100), ("await_window",), ("send", 100)], "a2": [("close",)], "b1": [("recv", 65536)]},
-     "pkt": 65536, "tmo": "nonblock"},
-    {"threads": {"a1": [("send", 32768), ("send", 100), ("await_window",), ("send_err", 100)], "a2": [("shutdown_write",)], "b1": [("recv", 65536)]},
-     "pkt": 65536, "tmo": "timed"},
+    # (the closer waits until the window was used up, reopened and touched again, so it meets the writer's LAST send)
+    {"threads": {"a1": [("send", 32768), ("send", 100), ("await_window",), ("send", 100)], "a2": [("await_zero",), ("await_window",), ("await_below", 32768), ("close",)],
+                 "b1": [("recv", 65536)]}, "pkt": 65536, "tmo": "nonblock"},
+    {"threads": {"a1": [("send", 32768), ("send", 100), ("await_window",), ("send_err", 100)], "a2": [("await_zero",), ("await_window",), ("await_below", 32768), ("shutdown_write",)],
+                 "b1": [("recv", 65536)]}, "pkt": 65536, "tmo": "nonblock"},
     {"threads": {"a1": [("send", 32768), ("sendall", 100), ("await_window",), ("send", 100)], "b1": [("recv", 65536), ("close",)]},
      "pkt": 65536, "tmo": "nonblock"},
     {"threads": {"a1": [("send", 100)], "a2": [("close",)], "a3": [("send", 5), ("send", 5)]}},
@@ -205,7 +206,7 @@ def run(c):
     progs += programs(rnd, 10 if c.quick else 150)
     deadline = time.time() + (9 if c.quick else 200)
     explored = dc.explore_into(runs, c, progs, 25 if c.quick else 250, 6 if c.quick else 40, deadline,
-                               bound=1 if c.quick else 2)
+                               bound=1 if c.quick else 2, gap_runs=8)
     laps["explore_s"] = round(time.time() - t0 - laps["model+replay_s"], 1)
     dc.validate(c, runs, INVS, describe)
     laps["validate_s"] = round(time.time() - t0 - laps["model+replay_s"] - laps["explore_s"], 1)
